@@ -57,7 +57,7 @@ def parse_query(dg):
 
 class QInfo:
     """what a query datagram is, as far as the monitors care"""
-    __slots__ = ('id', 'qtype', 'name', 'kind', 'uid', 'ack', 'fs')
+    __slots__ = ('id', 'qtype', 'name', 'kind', 'uid', 'ack', 'fs', 'fp_recv', 'src')
 
     def __init__(self, qid, qtype, name, domain):
         self.id = qid
@@ -67,6 +67,8 @@ class QInfo:
         self.uid = None
         self.ack = None       # (dn_seq, dn_frag) the query acknowledges
         self.fs = None        # requested fragsize of an N request
+        self.fp_recv = None   # ping: first 4 decoded bytes of the whole (undotified) name
+        self.src = None       # source address token of the event that carried it
         low = name.lower()
         dom = domain.lower() + b'.' if not domain.endswith(b'.') else domain.lower()
         if not low.endswith(b'.' + dom) and low != dom:
@@ -79,6 +81,7 @@ class QInfo:
         if c0 == b'p':
             d = b32dec(und[1:])
             self.kind = 'ping'
+            self.fp_recv = d[:4]
             if len(d) >= 4:
                 self.uid = d[0]
                 self.ack = (d[1] >> 4, d[1] & 15)      # as the C computes them from a signed char: see monitor
